@@ -50,6 +50,12 @@ def jobs(tier, seed):
                 out.append({"kind": "real", "gw": gw, "flavour": fl, "script": sc, "rt": [0.4, 0.3, 0.6][(k + seed) % 3], "hold": 0.0})
             if gw == "tcp":
                 out.append({"kind": "real", "gw": gw, "flavour": fl, "script": ["traffic"], "rt": 0.5, "hold": 3.0})   # answering link held for 6 x rt
+    # real churn: the device keeps killing the link while commands are being written; callbacks must stay exact
+    for gw in ("tcp", "serial"):
+        for fl in ("threaded", "asyncio"):
+            for i in range(1 if q else 4):
+                out.append({"kind": "real-churn", "gw": gw, "flavour": fl, "seed": seed * 100 + i,
+                            "pace": [[0.05, 0.1, 0.3], [0.003, 0.01, 0.03, 0.08], [0.2, 0.4, 0.6]][i % 3], "churn": [3.0, 2.0, 4.0][i % 3]})
     only = os.environ.get("VF_C20_ONLY")      # development aid: restrict to one job kind
     if only:
         out = [j for j in out if j["kind"] == only]
@@ -157,6 +163,58 @@ def run_real_job(job, res, reproduce=2):
                     "log": [show(e) for e in ev if e[1] not in ("RX", "ANSWER")][:30]})
 
 
+def run_real_churn(job, res):
+    """Real gateway + real device under connection churn with commands in flight: callback exactness and supervision.
+    Not replayable bit for bit: an anomaly counts when its signature shows again in at least one of two re-runs."""
+    from .. import realdev as R
+
+    tag = f"{job['gw']}/{job['flavour']}"
+
+    def once(seed):
+        fn = R.run_stress if job["flavour"] == "threaded" else R.run_stress_async
+        try:
+            out = fn(job["gw"], seed, churn_s=job["churn"], pace=tuple(job["pace"]))
+        except OSError as exc:
+            if exc.errno in (1, 13, 97, 99, 2, 19):
+                return None, None, repr(exc)
+            raise
+        V = [(s_, w) for s_, w in R.check_stress(out) if s_.startswith(("real-stress:commands-dropped", "real-stress:link-not"))]
+        V = [(s_.replace("real-stress:", "real-churn:") + f":{job['flavour']}", w) for s_, w in V] + R.check_churn_callbacks(out, job["flavour"])
+        return out, V, None
+
+    out, V, un = once(job["seed"])
+    if un:
+        res.count("real_device_unavailable")
+        res.notes.append(f"real-device churn unavailable here: {un}")
+        return
+    ev = out["events"]
+    st = out["stats"]
+    res.evals += 1
+    res.count("real_churn_runs")
+    res.count(f"real_churn_runs[{tag}]")
+    res.count("real_churn_connections_killed", st["drops"])
+    res.count("real_churn_made_callbacks", sum(1 for e in ev if e[1] == "MADE"))
+    res.count("real_churn_lost_callbacks", sum(1 for e in ev if e[1] == "LOST"))
+    res.count("real_churn_commands_received", st["received"])
+    if st["drops"] >= 3:
+        res.nontrivial(("real-churn", job["gw"], job["flavour"], job["seed"]))
+    if V:
+        again = set()
+        for k in (1, 2):
+            o2, V2, un2 = once(job["seed"] + 7919 * k)
+            if V2:
+                again |= {s_ for s_, _ in V2}
+        dropped = [s_ for s_, _ in V if s_ not in again]
+        if dropped:
+            res.count("real_anomalies_not_reproduced", len(dropped))
+            res.notes.append(f"real-churn anomaly not seen again in two re-runs (not judged): {dropped[:3]} {tag} seed={job['seed']}")
+        V = [(s_, w) for s_, w in V if s_ in again]
+    case = {"real_churn": True, "gw": job["gw"], "flavour": job["flavour"], "seed": job["seed"], "pace": job["pace"], "churn": job["churn"], "stats": st,
+            "thread_errors": [list(map(str, e)) for e in out["errors"][:8]]}
+    for sig, what in V:
+        res.violation(sig, what + f"  [real {job['gw']} device, {job['flavour']}, {st['drops']} connections killed under traffic]", case)
+
+
 def run(job):
     import faulthandler
 
@@ -174,6 +232,8 @@ def run(job):
                                 "log": [list(map(str, e)) for e in ev if e[1] != "SLEEP"][:25]})
         elif job["kind"] == "real":
             run_real_job(job, res)
+        elif job["kind"] == "real-churn":
+            run_real_churn(job, res)
         elif job["kind"] == "random":
             rng = core.rng_for(ID, job["seed"], job["gw"], job["flavour"])
             alpha = ALPHA[(job["gw"], job["flavour"])]
@@ -213,6 +273,9 @@ def replay(case):
     from .. import lifetimes as L
 
     res = Result()
+    if case.get("real_churn"):
+        run_real_churn({"gw": case["gw"], "flavour": case["flavour"], "seed": case["seed"], "pace": case["pace"], "churn": case["churn"]}, res)
+        return res
     if case.get("real"):
         run_real_job({"gw": case["gw"], "flavour": case["flavour"], "script": case["script"], "rt": case["rt"], "hold": case.get("hold", 0.0)}, res)
         return res
@@ -243,13 +306,17 @@ def finish(agg, tier):
                 "device away for 3.3 x rt, silent link, user disconnect} ended by stop(); oracle: callbacks exactly once per connection, "
                 "connect attempt + loss callback after every unrequested loss, >= 2 retries no closer than rt while the device is away, "
                 "no reconnect after a user disconnect, nothing (callbacks, connects, bytes at the device) after stop(), answered links "
-                "never dropped, silent links dropped no earlier than 2 x rt; an anomaly counts only if it reproduces on two re-runs.",
+                "never dropped, silent links dropped no earlier than 2 x rt; an anomaly counts only if it reproduces on two re-runs. Real "
+                "churn: the same four gateways while three threads queue commands and the device kills the link every 3-600 ms for "
+                "2-4 s, then a quiet phase, a final batch and stop(): made == lost callbacks, (TCP) accepted == made, commands flow "
+                "again once the faults stop, nothing after stop().",
         "exhaustive": True,
         "floors": [("lifetimes", c.get("lifetimes", 0), 1500), ("lifetimes_with_loss_and_reconnect", c.get("lifetimes_with_loss_and_reconnect", 0), 500),
                    ("watchdog_answering_links", c.get("watchdog_answering_links", 0), 18), ("watchdog_silent_links", c.get("watchdog_silent_links", 0), 12)]
                   + [(f"loss_and_reconnect[{k}/{fl}]", c.get(f"loss_and_reconnect[{k}/{fl}]", 0), 40) for (k, fl) in ALPHA]
                   + ([] if c.get("real_device_unavailable") else
-                     [(f"real_lifetimes[{k}/{fl}]", c.get(f"real_lifetimes[{k}/{fl}]", 0), 5) for (k, fl) in ALPHA]),
+                     [(f"real_lifetimes[{k}/{fl}]", c.get(f"real_lifetimes[{k}/{fl}]", 0), 5) for (k, fl) in ALPHA]
+                     + [(f"real_churn_runs[{k}/{fl}]", c.get(f"real_churn_runs[{k}/{fl}]", 0), 1) for (k, fl) in ALPHA]),
         "assumptions": ["real-device sample: deadlines are generous (6 x rt + 4 s) and anomalies must reproduce 3/3; it is skipped (noted) where ptys / loopback are unavailable",
                         "fakes mimic the failure behaviour of serial ports, sockets and asyncio transports; 'about twice' = [2, 3] x rt",
                         "on the threaded TCP gateway a peer's orderly close is only observable through a failing write or the "
@@ -257,5 +324,6 @@ def finish(agg, tier):
                         "asyncio: 'after stop()' is judged once stop() returned and the ready handles have run",
                         "the value of the error argument of on_conn_lost is not judged"],
         "show": ["lifetimes", "lifetimes_with_loss_and_reconnect", "connect_attempts", "made_callbacks", "lost_callbacks", "watchdog_answering_links", "watchdog_silent_links",
-                 "real_lifetimes", "real_made_callbacks", "real_lost_callbacks", "real_failed_connect_attempts", "real_anomalies_not_reproduced"],
+                 "real_lifetimes", "real_made_callbacks", "real_lost_callbacks", "real_failed_connect_attempts", "real_churn_runs", "real_churn_connections_killed",
+                 "real_churn_made_callbacks", "real_churn_lost_callbacks", "real_anomalies_not_reproduced"],
     }
